@@ -120,6 +120,7 @@ class SimClock:
         self.trace = []     # dates handed out since last reset_trace()
         self.fail_next = None   # exception the next read raises
         self.raised = None      # ... and the one that was raised
+        self.hook = None        # called once by the next read
 
     def fail(self, exc: BaseException):
         self.fail_next = exc
@@ -146,6 +147,9 @@ class SimClock:
         if self.fail_next is not None:
             self.raised, self.fail_next = self.fail_next, None
             raise self.raised
+        if self.hook is not None:
+            hook, self.hook = self.hook, None
+            hook()
         if k in self.script:
             self.today = self.script.pop(k)
         self.trace.append(self.today)
